@@ -3,10 +3,12 @@
 set -u
 P=$(realpath "$1"); TIER=$2; shift 2
 if [ -n "$(git -C /repo status --porcelain --untracked-files=no)" ]; then echo "/repo not clean"; exit 2; fi
+SAVE=$(mktemp -d); cp -a /verif/evidence/. "$SAVE"/ 2>/dev/null
 git -C /repo apply "$P" || { echo "patch does not apply"; exit 2; }
 for id in "$@"; do
   out=$(/verif/check "$id" "$TIER" 2>&1); code=$?
   echo "== $id exit=$code"; echo "$out" | grep -E "VIOLATION|violation class|KNOWN-FINDING|OK|engine:|check:" | cut -c1-400 | head -12
 done
-git -C /repo checkout -- . 
+git -C /repo checkout -- .
+rm -rf /verif/evidence; mkdir -p /verif/evidence; cp -a "$SAVE"/. /verif/evidence/; rm -rf "$SAVE" /verif/replays/*
 # restore evidence of the unchanged tree is the caller's business
